@@ -1291,6 +1291,24 @@ CONTROLS['C15'] = [
       "    except (ValueError, RecursionError) as exc:", "    except ValueError as exc:", 'R15.2'),
     B('c15-benign-catch-exception', 'placement/util.py',
       "    except (ValueError, RecursionError) as exc:", "    except (ValueError, RuntimeError) as exc:"),
+    M('c15-validator-under-data-condition', 'placement/lib.py',
+      "            cls._check_actual_suffix(subtree_suffixes, by_suffix)\n",
+      "            if resourceless_suffixes:\n                cls._check_actual_suffix(subtree_suffixes, by_suffix)\n",
+      'R15.9'),
+    B('c15-benign-vacuous-guard', 'placement/lib.py',
+      "            cls._check_resourceless_suffix(\n                subtree_suffixes, resourceless_suffixes)\n",
+      "            if resourceless_suffixes:\n                cls._check_resourceless_suffix(\n                    subtree_suffixes, resourceless_suffixes)\n"),
+    B('c15-benign-vacuous-guard-2', 'placement/lib.py',
+      "            cls._check_actual_suffix(subtree_suffixes, by_suffix)\n",
+      "            if subtree_suffixes:\n                cls._check_actual_suffix(subtree_suffixes, by_suffix)\n"),
+    M('c15-validator-verdict-discarded', H + 'trait.py',
+      "    util.validate_query_params(req, schema.LIST_TRAIT_SCHEMA)\n",
+      "    try:\n        util.validate_query_params(req, schema.LIST_TRAIT_SCHEMA)\n    except webob.exc.HTTPBadRequest:\n        pass\n",
+      'R15.9'),
+    M('c15-forbidden-check-under-data', 'placement/lib.py',
+      "        if allow_forbidden:\n            cls._check_forbidden(by_suffix)\n",
+      "        if allow_forbidden and len(by_suffix) > 1:\n            cls._check_forbidden(by_suffix)\n",
+      'R15.9'),
     B('c15-benign-rename', 'placement/util.py',
       "        try:\n            amount = int(amount)\n        except ValueError:",
       "        try:\n            amount = int(amount.strip())\n        except (ValueError, TypeError):"),
@@ -1562,4 +1580,22 @@ CONTROLS['C20'] += [
     M('c20-eq-ignores-mappings', OAC,
       "        return (set(self.resource_requests) == set(other.resource_requests) and\n                self.mappings == other.mappings)",
       "        return set(self.resource_requests) == set(other.resource_requests)", 'R20.5'),
+]
+
+ORP = O + 'resource_provider.py'
+CONTROLS['C17'] += [
+    M('c17-seed-skip-clean-slate-for-new-consumer', OA,
+      "    consumer_ids = set(alloc.consumer.uuid for alloc in allocs)\n    for consumer_id in consumer_ids:\n        _delete_allocations_for_consumer(context, consumer_id)\n",
+      "    consumer_ids = set(alloc.consumer.uuid for alloc in allocs\n                       if alloc.consumer.generation)\n    for consumer_id in consumer_ids:\n        _delete_allocations_for_consumer(context, consumer_id)\n", 'R17.5'),
+    reuse('C19', 'c19-sync-inserts-all', 'c17-sync-inserts-all', 'R17.5'),
+    M('c17-aggregates-insert-all-provided', ORP,
+      "    agg_uuids_to_add = provided_aggregates - set(existing_aggregates.values())\n",
+      "    agg_uuids_to_add = provided_aggregates\n", 'R17.5'),
+    M('c17-aggregates-work-after-bump', ORP,
+      "    if increment_generation:\n        resource_provider.increment_generation()\n\n\ndef _add_traits_to_provider",
+      "    if increment_generation:\n        resource_provider.increment_generation()\n"
+      "    _get_aggregates_by_provider_id(context, rp_id)\n\n\ndef _add_traits_to_provider", 'R17.5'),
+    B('c17-benign-aggregates-rename', ORP,
+      "    agg_uuids_to_add = provided_aggregates - set(existing_aggregates.values())\n",
+      "    known = set(existing_aggregates.values())\n    agg_uuids_to_add = provided_aggregates - known\n"),
 ]
